@@ -111,6 +111,7 @@ func main() {
 		}
 		wg.Wait()
 		handlerLists(r)
+		authSock(r)
 		helper(r, mon)
 		entropyFaults(r, mon)
 		seededPRNG(r, mon)
@@ -730,11 +731,23 @@ func (s *stubHandler) Authenticate(*csr.ReqParam) error {
 	if s.accept {
 		return nil
 	}
-	switch s.authCalls % 3 {
+	// every way of saying no: plain, wrapped, and each of the RA's own error kinds (a handler that is switched off,
+	// misconfigured, given bad parameters, ... has not authenticated anybody either)
+	switch s.authCalls % 9 {
 	case 1:
 		return errors.New("scripted rejection (plain error)")
 	case 2:
 		return fmt.Errorf("wrapped: %w", gensign.NewErrorWithMsg(gensign.HandlerAuthN, s.name, "scripted rejection"))
+	case 3:
+		return gensign.NewErrorWithMsg(gensign.HandlerDisabled, s.name, "switched off")
+	case 4:
+		return gensign.NewErrorWithMsg(gensign.HandlerConfErr, s.name, "misconfigured")
+	case 5:
+		return gensign.NewErrorWithMsg(gensign.InvalidParams, s.name, "bad parameters")
+	case 6:
+		return gensign.NewErr(gensign.Panic, errors.New("a handler reporting a panic of its own"))
+	case 7:
+		return gensign.NewErr(gensign.AllAuthFailed, errors.New(""))
 	}
 	return gensign.NewErrorWithMsg(gensign.HandlerAuthN, s.name, "scripted rejection")
 }
@@ -849,7 +862,7 @@ func handlerLists(r *ev.Run) {
 						var hs []gensign.Handler
 						var stubs []*stubHandler
 						for i := 0; i < n; i++ {
-							s := &stubHandler{name: fmt.Sprintf("stub%d", i), log: &log, authCalls: (mode + i) % 3}
+							s := &stubHandler{name: fmt.Sprintf("stub%d", i), log: &log, authCalls: (mode + i) % 9}
 							switch {
 							case i == pos:
 								s.accept, s.genFails = true, mode
@@ -978,7 +991,7 @@ func oneList(r *ev.Run, c *ev.Case, n, pat, realPos int, realOK bool, variant in
 			}
 			continue
 		}
-		s := &stubHandler{name: fmt.Sprintf("stub%d", i), accept: pat&(1<<uint(i)) != 0, log: &log, authCalls: (variant + i) % 3}
+		s := &stubHandler{name: fmt.Sprintf("stub%d", i), accept: pat&(1<<uint(i)) != 0, log: &log, authCalls: (variant + i) % 9}
 		stubs = append(stubs, s)
 		hs = append(hs, s)
 		if s.accept && firstAccept == "" {
